@@ -13,6 +13,8 @@ import (
 	"os"
 	"sort"
 	"strings"
+
+	"github.com/willabides/rjson"
 )
 
 type gUnit struct {
@@ -122,6 +124,77 @@ func (m *gMachine) access() map[int][]byte {
 	return acc
 }
 
+// completions: for every control state, the shortest remaining suffix observed when a valid
+// document's run (handlers declining every member) visits that state.  Inserting or
+// substituting a byte at that point of an otherwise valid document makes a transition that
+// wrongly accepts it visible to the validity / offset oracles.
+func (m *gMachine) completions(docs [][]byte) map[int][]byte {
+	comp := map[int][]byte{}
+	for _, d := range docs {
+		c := cfg{m.Start, ""}
+		p := 0
+		ok := true
+		for p < len(d) && ok {
+			if old, have := comp[c.cs]; !have || len(d)-p < len(old) {
+				comp[c.cs] = d[p:]
+			}
+			rows := m.Rows[fmt.Sprint(c.cs)]
+			moved := false
+			for _, r := range rows {
+				if r[0] <= int(d[p]) && int(d[p]) <= r[1] {
+					moved = true
+					dest := r[3]
+					var units []gUnit
+					if r[2] > 0 && r[2] < len(m.Blocks) {
+						units = m.Blocks[r[2]]
+					}
+					st := c.stack
+					next := cfg{dest, st}
+					for _, u := range units {
+						switch u.Kind {
+						case "UReturnErr", "UBreak", "UUnknown":
+							ok = false
+						case "UScanDec":
+							np, err := rjson.VerifSkipFloatDec(d, p+1, len(d))
+							if err != nil {
+								ok = false
+							}
+							p = np
+						case "UScanExp":
+							np, err := rjson.VerifSkipFloatExp(d, p+1, len(d))
+							if err != nil {
+								ok = false
+							}
+							p = np
+						case "UCall":
+							next = cfg{u.A[3], st + "," + fmt.Sprint(u.A[2])}
+						case "URet":
+							i := strings.LastIndex(st, ",")
+							if i < 0 {
+								ok = false
+							} else {
+								var ret int
+								fmt.Sscan(st[i+1:], &ret)
+								next = cfg{ret, st[:i]}
+							}
+						}
+					}
+					if next.cs == 0 {
+						ok = false
+					}
+					c = next
+					p++
+					break
+				}
+			}
+			if !moved {
+				ok = false
+			}
+		}
+	}
+	return comp
+}
+
 func loadGen() *gFile {
 	path := os.Getenv("VERIF_GEN_JSON")
 	if path == "" {
@@ -170,8 +243,43 @@ func sweep(e *emitter, machine string, thorough bool) {
 		if thorough {
 			comps = []string{"", "]", "}", "\"", " 1", "5]", "\"}", "x"}
 		}
+		// valid documents whose runs provide per-state completions
+		rr := &rng{s: 12345}
+		var docs [][]byte
+		for i := 0; i < 3000; i++ {
+			docs = append(docs, genDoc(rr))
+		}
+		for _, v := range valuePool {
+			docs = append(docs, []byte(v), []byte(" "+v+" "))
+		}
+		for _, sp := range stringPool {
+			docs = append(docs, []byte(sp), []byte(sp[1:]), []byte(strings.Trim(sp, `"`)))
+		}
+		docs = append(docs, []byte(`{"a" : 1 , "b" : [ 1 , 2 ] , "c" : { "d" : "x\n\u00e9\ud83d\ude00" } }`), []byte("[ 1.5e+3 , -0.25E-2 , true , false , null , \"s\" ]"), []byte(" null"), []byte("\ttrue"), []byte("false"))
+		comp := m.completions(docs)
 		for _, q := range states {
 			for b := 0; b < 256; b++ {
+				if cq, have := comp[q]; have && len(cq) < 200 {
+					// insert b before, and substitute b for, the next byte of a valid continuation
+					ins := append(append(append([]byte{}, acc[q]...), byte(b)), cq...)
+					for _, op := range sweepOps[machine] {
+						if strings.HasPrefix(op, "rsb 22") {
+							e.emit("rsb 22%s - 0", strings.TrimPrefix(hs(ins), "-"))
+						} else {
+							e.emit(op, hs(ins))
+						}
+					}
+					if len(cq) > 0 {
+						sub := append(append(append([]byte{}, acc[q]...), byte(b)), cq[1:]...)
+						for _, op := range sweepOps[machine] {
+							if strings.HasPrefix(op, "rsb 22") {
+								e.emit("rsb 22%s - 0", strings.TrimPrefix(hs(sub), "-"))
+							} else {
+								e.emit(op, hs(sub))
+							}
+						}
+					}
+				}
 				for _, c := range comps {
 					in := append(append(append([]byte{}, acc[q]...), byte(b)), c...)
 					h := hs(in)
@@ -185,7 +293,7 @@ func sweep(e *emitter, machine string, thorough bool) {
 				}
 			}
 		}
-		e.emit("# sweep %s: %d of %d states reached", machine, len(acc), len(m.States)-1)
+		e.emit("# sweep %s: %d of %d states reached, %d with a completion", machine, len(acc), len(m.States)-1, len(comp))
 	}
 }
 
